@@ -4,11 +4,14 @@
    _add_component, _compose_experiment, _validate_postselect_composition, _add_herald, add_herald, add_port,
    _add_detector), exqalibur PostSelect (apply_permutation, shift_modes, can_compose_with,
    is_independent_with, merge; DESIGN Appendix A.1).
-   The model is faithful to the code as it is, quirks included:
-   - a plain component gets the PERM in front but no inverse PERM behind (only processors get both);
-   - the added processor's post-selection is permuted with first = c_first and THEN shifted by c_first;
-   - a dictionary entry `port name -> int` is always refused ("imbalanced ports"), `int -> name/list` is ignored;
-   - failures that happen late (PERM constructor, post-selection merge) leave the partial updates in place.
+   The model is faithful to the code as it is, quirks included (`int -> name/list` dictionary entries are ignored;
+   failures that happen late — PERM constructor, post-selection merge — leave the partial updates in place).
+   Three behaviours are switched by a configuration record [cfg]; [cfg_now] is /repo as it is now, [cfg_old] the
+   code before the fix commits 7bb2f795, c0ab6b50, 2ff1ae25 (kept for the `_old_code` refutations):
+   - c_comp_inverse  : a plain component gets the inverse PERM behind it, like a processor (old: PERM in front only);
+   - c_ps_shift_first: the added processor's post-selection is shifted by c_first and THEN permuted with
+                       first = c_first (old: permuted first, then shifted);
+   - c_name_to_int   : a dictionary entry `port name -> int` is accepted for one-mode ports (old: always refused).
    `simplify` and the fusion of two consecutive PERMs are matrix-preserving by contract (C11) and are not
    modelled: the state keeps the matrix of the component list, not the list. *)
 From PV Require Export Model.Select Model.Components.
@@ -25,6 +28,10 @@ Fixpoint dset (d : amap) (k : Z) (v : nat) : amap :=
   | [] => [(k, v)]
   | (k', v') :: r => if (k' =? k)%Z then (k', v) :: r else (k', v') :: dset r k v
   end.
+
+Record cfg := { c_comp_inverse : bool; c_ps_shift_first : bool; c_name_to_int : bool }.
+Definition cfg_now : cfg := {| c_comp_inverse := true; c_ps_shift_first := true; c_name_to_int := true |}.
+Definition cfg_old : cfg := {| c_comp_inverse := false; c_ps_shift_first := false; c_name_to_int := false |}.
 
 Inductive mkey := KInt (k : Z) | KName (s : nat).
 Inductive mval := VInt (v : nat) | VName (s : nat) | VList (l : list nat).
@@ -44,25 +51,26 @@ Fixpoint dset_all (d : amap) (ks vs : list nat) : amap :=
   end.
 
 (* dict case of ModeConnector.resolve; None = an exception is raised *)
-Fixpoint resolve_dict (r_is_comp : bool) (lnames rnames : list nat) (items : list (mkey * mval)) (acc : amap)
+Fixpoint resolve_dict (n2i : bool) (r_is_comp : bool) (lnames rnames : list nat) (items : list (mkey * mval)) (acc : amap)
   : option amap :=
   match items with
   | [] => Some acc
-  | (KInt k, VInt v) :: r => resolve_dict r_is_comp lnames rnames r (dset acc k v)
-  | (KInt _, _) :: r => resolve_dict r_is_comp lnames rnames r acc          (* silently ignored *)
+  | (KInt k, VInt v) :: r => resolve_dict n2i r_is_comp lnames rnames r (dset acc k v)
+  | (KInt _, _) :: r => resolve_dict n2i r_is_comp lnames rnames r acc          (* silently ignored *)
   | (KName s, v) :: r =>
       match port_idx lnames s with
       | None => None
       | Some l_idx =>
           match (match v with
-                 | VInt _ => None                   (* r_idx stays [] (or the int is looked up as a name): raises *)
+                 | VInt x => if n2i && (length l_idx =? 1) then Some [x] else None
+                   (* several modes: the int is looked up as a port name and raises; old code: always raises *)
                  | VList l => Some l
                  | VName t => if r_is_comp then None else port_idx rnames t
                  end) with
           | None => None
           | Some r_idx =>
               if length l_idx =? length r_idx
-              then resolve_dict r_is_comp lnames rnames r (dset_all acc l_idx r_idx) else None
+              then resolve_dict n2i r_is_comp lnames rnames r (dset_all acc l_idx r_idx) else None
           end
       end
   end.
@@ -71,13 +79,13 @@ Definition type_ok (r_is_comp : bool) (items : list (mkey * mval)) : bool :=
   forallb (fun kv => match snd kv with VName _ => negb r_is_comp | _ => true end) items.
 
 (* n = right_obj.m, rmodes = _get_ordered_rmodes() *)
-Definition resolve_map (r_is_comp : bool) (n : nat) (rmodes lnames rnames : list nat) (mp : mapping) : option amap :=
+Definition resolve_map (cf : cfg) (r_is_comp : bool) (n : nat) (rmodes lnames rnames : list nat) (mp : mapping) : option amap :=
   match mp with
   | MInt b => Some (fold_left (fun acc i => dset acc (b + Z.of_nat i)%Z (nth i rmodes 0)) (seq 0 n) [])
   | MList l => if length l =? length rmodes
                then Some (fold_left (fun acc kv => dset acc (fst kv) (snd kv)) (combine l rmodes) [])
                else None
-  | MDict d => if type_ok r_is_comp d then resolve_dict r_is_comp lnames rnames d [] else None
+  | MDict d => if type_ok r_is_comp d then resolve_dict (c_name_to_int cf) r_is_comp lnames rnames d [] else None
   end.
 
 Definition has_dup (l : list nat) : bool := negb (length (nodup Nat.eq_dec l) =? length l).
@@ -129,9 +137,11 @@ Fixpoint ps_rename (f : nat -> nat) (p : ps) : ps :=
 (* native apply_permutation(perm, first) and shift_modes(k)  (Appendix A.1) *)
 Definition ps_apply_perm (p : list nat) (first : nat) : ps -> ps := ps_rename (pfun first p).
 Definition ps_shift (k : nat) : ps -> ps := ps_rename (fun i => i + k).
-(* what _compose_experiment does: permute with first = c_first (only when a PERM was needed), then shift *)
-Definition ps_code (mn : nat) (pv : list nat) (p : ps) : ps :=
-  ps_shift mn (if is_identity pv then p else ps_apply_perm (invert pv) mn p).
+(* what _compose_experiment does. Now: shift by c_first, then (only when a PERM was needed) permute with
+   first = c_first. Before c0ab6b50: permute first, then shift *)
+Definition ps_code (shift_first : bool) (mn : nat) (pv : list nat) (p : ps) : ps :=
+  if shift_first then (if is_identity pv then ps_shift mn p else ps_apply_perm (invert pv) mn (ps_shift mn p))
+  else ps_shift mn (if is_identity pv then p else ps_apply_perm (invert pv) mn p).
 (* the re-expression in the new numbering: right mode r sits on mode mn + pv^-1[r] *)
 Definition ps_right (mn : nat) (pv : list nat) (p : ps) : ps := ps_apply_perm (invert pv) mn (ps_shift mn p).
 
@@ -162,6 +172,7 @@ Section Exp.
 Variable R : cring.
 (* re-tabulation of a computed matrix (identity on values below the size): [retab] when executed *)
 Variable tb : nat -> mat R -> mat R.
+Variable cf : cfg.
 
 Record exp := {
   e_moi : nat;                 (* _n_moi *)
@@ -264,6 +275,10 @@ Definition comp_step (n mn : nat) (pv : list nat) (k : nat) (Uc : mat R) : mat R
 Definition proc_step (n mn : nat) (pv : list nat) (nR : nat) (UR : mat R) : mat R :=
   mmul n (perm_block mn (invert pv)) (mmul n (embed mn nR UR) (perm_block mn pv)).
 
+(* the segment _add_component inserts: now [PERM; component; PERM^-1], before 7bb2f795 [PERM; component] *)
+Definition comp_seg (inv : bool) (n mn : nat) (pv : list nat) (k : nat) (Uc : mat R) : mat R :=
+  if inv then proc_step n mn pv k Uc else comp_step n mn pv k Uc.
+
 (* _validate_postselect_composition (an assert) *)
 Definition ps_allows (e : exp) (m : amap) : bool :=
   match e_ps e with None => true | Some p => can_compose p (map (fun kv => Z.to_nat (fst kv)) m) end.
@@ -277,7 +292,7 @@ Inductive outcome := Rejected | Accepted.
    Result: new state, accepted?, and the data of the inserted segment (min, perm vector) when it was built *)
 Definition add_comp (e : exp) (mp : mapping) (k : nat) (Uc : mat R) (keep : bool)
   : exp * bool * option (nat * list nat * nmap) :=
-  match resolve_map true k (seq 0 k) (map (fun o => match o with Some (NUser id) => id | _ => 0 end)
+  match resolve_map cf true k (seq 0 k) (map (fun o => match o with Some (NUser id) => id | _ => 0 end)
                                           (names_of (csize e) (e_out e))) [] mp with
   | None => (e, false, None)
   | Some am =>
@@ -289,7 +304,7 @@ Definition add_comp (e : exp) (mp : mapping) (k : nat) (Uc : mat R) (keep : bool
           let mn := lmin (keys m) in
           let n := csize e in
           ({| e_moi := e_moi e1; e_nher := e_nher e1; e_types := e_types e1;
-              e_U := tb n (mmul n (tb n (comp_step n mn pv k Uc)) (e_U e1));
+              e_U := tb n (mmul n (tb n (comp_seg (c_comp_inverse cf) n mn pv k Uc)) (e_U e1));
               e_in := e_in e1; e_out := e_out e1; e_dets := e_dets e1; e_ps := e_ps e1; e_anon := e_anon e1 |},
            true, Some (mn, pv, m))
         else (e1, false, None)
@@ -333,7 +348,7 @@ Definition add_proc (e : exp) (mp : mapping) (r : exp) (keep : bool)
   let hpos := herald_modes r in
   let rmodes := filter (fun x => negb (mem x hpos)) (seq 0 (csize r)) in
   let code := fun o => match o with Some (NUser id) => id | _ => 0 end in
-  match resolve_map false (e_moi r) rmodes (map code (names_of (csize e) (e_out e)))
+  match resolve_map cf false (e_moi r) rmodes (map code (names_of (csize e) (e_out e)))
                     (map code (names_of (csize r) (e_in r))) mp with
   | None => (e, false, None)
   | Some am =>
@@ -362,7 +377,7 @@ Definition add_proc (e : exp) (mp : mapping) (r : exp) (keep : bool)
               match e_ps r with
               | None => (e4, true, Some (mn, pv, m))
               | Some q =>
-                  let q' := ps_code mn pv q in
+                  let q' := ps_code (c_ps_shift_first cf) mn pv q in
                   match e_ps e4 with
                   | None => (set_ps e4 q', true, Some (mn, pv, m))
                   | Some a => if independent a q' then (set_ps e4 (PAnd a q'), true, Some (mn, pv, m))
@@ -379,6 +394,6 @@ Arguments e_moi {_}. Arguments e_nher {_}. Arguments e_types {_}. Arguments e_U 
 Arguments e_out {_}. Arguments e_dets {_}. Arguments e_ps {_}. Arguments e_anon {_}. Arguments csize {_}.
 Arguments new_exp {_}. Arguments herald_modes {_}. Arguments connectible {_}. Arguments add_herald {_}.
 Arguments add_herald_int {_}. Arguments add_port {_}. Arguments add_det {_}. Arguments set_ps {_}.
-Arguments perm_block {_}. Arguments comp_step {_}. Arguments proc_step {_}. Arguments add_comp {_}.
+Arguments perm_block {_}. Arguments comp_step {_}. Arguments proc_step {_}. Arguments comp_seg {_}. Arguments add_comp {_}.
 Arguments add_proc {_}. Arguments ps_allows {_}. Arguments drop_ports {_}. Arguments transfer_out {_}.
 Arguments transfer_in {_}. Arguments with_ports {_}.
